@@ -427,7 +427,7 @@ func c13(r *Run) {
 	// ---- R6 the teardown chain and the control path the server relies on ---------------------------------
 	// the untrack callback and the finalizer are nodes of the close-callback chain: the walk reaches them whatever the
 	// user's callbacks return (C05.R5/R11)
-	r.borrow([]string{"C05.R5:walk-is-complete", "C05.R11:runner-completes", "C05.R5:lifo-walk"}, "C05.R", "C13.R6.teardown.", func() { c05(r) })
+	r.borrow([]string{"C05.R5:walk-is-complete", "C05.R11:runner-completes", "C05.R5:lifo-walk", "C05.R5:register-is-one-step"}, "C05.R", "C13.R6.teardown.", func() { c05(r) })
 	{
 		// every control request other than a repeated detach reaches the poller: the EMFILE back-off re-arms the listener
 		// through FDOperator.Control and cannot notice a refusal
